@@ -131,6 +131,68 @@ FIELD_FAULTS = ["", "-1", "256", "65536", "1001", "x", "1x", "0", "1", "*", "**"
                 "%1", "%65536", "%", ",", "64+", "+64", "64+200", "0-", "256-", "64--", "nop,", ",nop", "foo", "df,", "flow", "id+", "eol", "sack ", " ts"]
 
 
+TCP_FIELD_FAULTS = {
+    0: ["", "5", "44", "x", "4 ", "**", "4", "6", "*"],
+    1: ["", "0", "256", "64+192", "64+191", "255+1", "1+255", "0-", "256-", "-", "64+", "+64", "64+-1", "64-1", "x", "64+x", "1-", "255-", "255", "1", "1+0", "254+1"],
+    2: ["", "-1", "256", "255", "x", "*", "0"],
+    3: ["", "-1", "65536", "65535", "x", "**", "0", "*"],
+    6: ["foo", "DF", "df ", "df,,id+", ",df", "df,", "flow", "df", "0+", "id-", "id+", "bad,bad", "ecn,flow", "ts2+"],
+    7: ["", "1", "-", "x", "00", "+", "0", "*"],
+}
+WIN_FAULTS = ["", "-1", "65536", "65535", "0", "mss*0", "mss*1", "mss*1000", "mss*1001", "mtu*0", "mtu*1", "mtu*1000", "mtu*1001", "mtu*65535", "mss*65535",
+              "%1", "%2", "%65535", "%65536", "%0", "%", "mss*", "mtu*", "mst*5", "mss5", "x", "*", "**", "mss*+5", "m"]
+SCALE_FAULTS = ["", "-1", "256", "255", "x", "*", "0", "**"]
+OPT_FAULTS = ["", "?-1", "?256", "?255", "?0", "eol+256", "eol+255", "eol+0", "eol+-1", "eol+", "eol", "foo", "MSS", "?", "nop ", "sack", "ts", "eol+{padding_length}"]
+MTU_FAULTS = ["0", "1", "65535", "65536", "", "x", "-5", "1500 ", "*"]
+HTTP_VER_FAULTS = ["", "2", "x", "10", "0", "1", "*", "**"]
+
+
+def corrupt_sig_field(R, kind, val):
+    """Field-aware single fault: one field gets a value on or just beyond a boundary of its grammar, the rest stays valid."""
+    if kind == "mtu":
+        return R.choice(MTU_FAULTS), "mtu value"
+    parts = val.split(":")
+    if kind == "http":
+        parts[0] = R.choice(HTTP_VER_FAULTS)
+        return ":".join(parts), "http version"
+    while len(parts) < 8:
+        parts.append("")
+    j = R.randrange(8)
+    if j == 4:
+        w, _, sc = parts[4].partition(",")
+        r = R.random()
+        if r < 0.6:
+            w = R.choice(WIN_FAULTS)
+        elif r < 0.9:
+            sc = R.choice(SCALE_FAULTS)
+        else:
+            parts[4] = w
+            return ":".join(parts), "window without scale"
+        parts[4] = w + "," + sc
+    elif j == 5:
+        opts = parts[5].split(",") if parts[5] else []
+        f = R.choice(OPT_FAULTS)
+        if opts and R.random() < 0.7:
+            opts[R.randrange(len(opts))] = f
+        else:
+            opts.insert(R.randint(0, len(opts)), f)
+        parts[5] = ",".join(opts)
+        if R.random() < 0.1:
+            parts[5] = R.choice([",", parts[5] + ",", "," + parts[5]])
+    else:
+        parts[j] = R.choice(TCP_FIELD_FAULTS[j])
+    return ":".join(parts), "tcp field %d" % j
+
+
+def section_kinds(lines):
+    kinds, cur = {}, None
+    for i, l in enumerate(lines):
+        if line_kind(l) == "section":
+            cur = l.strip()[1:].split(":")[0].rstrip("]")
+        kinds[i] = cur
+    return kinds
+
+
 def corrupt(R, lines):
     """One single-fault corruption; returns (new_lines, description)."""
     lines = list(lines)
@@ -140,6 +202,14 @@ def corrupt(R, lines):
     op = R.randrange(12)
     i = R.choice(idx)
     k = line_kind(lines[i])
+    if op <= 3 and any(line_kind(l) == "sig" for l in lines):
+        i = R.choice([j for j in idx if line_kind(lines[j]) == "sig"])
+        head, _, val = lines[i].partition("=")
+        kind = section_kinds(lines).get(i)
+        if kind in ("mtu", "tcp", "http"):
+            new, what = corrupt_sig_field(R, kind, val.strip())
+            lines[i] = head + "= " + new
+            return lines, "%s of sig at line %d := %r" % (what, i + 1, new)
     if op <= 4 and any(line_kind(l) == "sig" for l in lines):
         i = R.choice([j for j in idx if line_kind(lines[j]) == "sig"])
         head, _, val = lines[i].partition("=")
